@@ -13,7 +13,7 @@ if "--" in args:
 for a in args:
     pid, d = a.split("/")
     src = V / "seeded" / pid / d
-    benign = d.startswith("benign-")
+    benign = d.startswith("benign")
     tag, k = (d.rsplit("-", 1)[0] + "-", d.rsplit("-", 1)[1]) if "-" in d else ("", d)
     with tempfile.TemporaryDirectory(prefix="reseed", dir="/tmp") as t:
         shutil.copy(src / "patch.diff", Path(t) / f"patch{k}.diff")
